@@ -165,6 +165,7 @@ HCOBS = VerusUnit(
                         "std::io::Error::other (generic over Into<Box<dyn Error>>) -> monomorphic assumed alias")]),
             d_fn("finish", "ensures Ok(iovec) <=> view == Before(insert = true); the output is returned unchanged; no panic"),
         ]),
+        VGhost("dec_grammar.rs"),
         VGhost("lemmas_enc.rs"),
         VGhost("theorems.rs"),
     ],
@@ -176,6 +177,10 @@ HCOBS = VerusUnit(
         VLemma("theorem_two_pieces", ["C01", "C02"], "fresh encoder, two pieces by any methods, finish => enc(a ++ b)"),
         VLemma("theorem_decode_split", ["C01", "C07"], "drun(s, a ++ b) == drun(drun(s, a), b): decoder result independent of segmentation"),
         VLemma("lemma_drun_concat", ["C01", "C07"], "concatenation lemma of the decoder automaton, all limits"),
+        VLemma("theorem_c07_decoder_accepts_exactly_the_format", ["C07"], "drun from Initial ends in the accepting state exactly on the "
+               "strings accepted by the declarative chunk grammar `parse` (well-formed chunk sequences ending on a short chunk), "
+               "with the grammar's payload; all byte strings"),
+        VLemma("lemma_dec_equiv", ["C07"], "automaton == grammar, all admissible limits, any chunk position"),
         VLemma("theorem_c02_no_stuff", ["C02"], "forall x. no FE FD at any position of enc(x)"),
         VLemma("lemma_enc_no_stuff", ["C02"], "no_stuff(enc(x)) for all admissible limits; encoding starts with a byte < FD"),
         VLemma("theorem_c02_length", ["C02"], "forall x. |enc(x)| <= |x| + 1 + 2 * ceil(|x| / 64008)"),
